@@ -3,6 +3,7 @@ package sample
 import (
 	"bytes"
 	"fmt"
+	"math"
 	"sort"
 	"strconv"
 	"strings"
@@ -11,6 +12,24 @@ import (
 	"github.com/honeycombio/refinery/config"
 	"github.com/honeycombio/refinery/types"
 )
+
+// fieldValue returns a span field's value as the samplers see it. Some msgpack
+// clients encode integers as unsigned and floats in 32 bits; those are widened to
+// the int64 and float64 that the JSON and OTLP paths produce, so that rules and
+// sample keys do not depend on how a span was encoded on the wire.
+func fieldValue(data *types.Payload, field string) any {
+	switch v := data.Get(field).(type) {
+	case uint64:
+		if v <= math.MaxInt64 {
+			return int64(v)
+		}
+		return v
+	case float32:
+		return float64(v)
+	default:
+		return v
+	}
+}
 
 // once a key gets this many unique values, it's off the charts in terms of uniqueness
 // so we just stop looking for more.
@@ -68,7 +87,7 @@ outer:
 				if d.distinctValue.totalUniqueCount >= maxKeyLength {
 					break outer
 				}
-				d.distinctValue.AddAsString(span.Data.Get(field), i)
+				d.distinctValue.AddAsString(fieldValue(&span.Data, field), i)
 			}
 		}
 	}
@@ -97,7 +116,7 @@ outer:
 	if trace.RootSpan != nil {
 		for _, field := range d.rootOnlyFields {
 			if trace.RootSpan.Data.Exists(field) {
-				d.keyBuilder.WriteString(fmt.Sprintf("%v,", trace.RootSpan.Data.Get(field)))
+				d.keyBuilder.WriteString(fmt.Sprintf("%v,", fieldValue(&trace.RootSpan.Data, field)))
 				fieldCount += 1
 			}
 		}
